@@ -21,6 +21,8 @@ for line in sys.stdin:
         n = 'r2-' + n
     if '/out5-' in r['seed']:
         n = 'r5-' + n
+    if '/out6-' in r['seed']:
+        n = 'r6-' + n.lstrip('b')
     dst = '/verif/seeded/%s-%s' % (prop, n)
     os.makedirs(dst, exist_ok=True)
     for f in ('patch.diff', 'demo.py'):
